@@ -1,0 +1,42 @@
+//go:build verif
+
+// Verification hooks (build tag verif). Add-only: lets the /verif harness run one round of the
+// real pruner (checkpointTries + DeleteTrieHistoryNodes) for a chosen chain and range, without the
+// background loop that waits for finality / steadiness.
+
+package pruner
+
+import (
+	"context"
+
+	"github.com/vechain/thor/v2/chain"
+	"github.com/vechain/thor/v2/muxdb"
+)
+
+// VerifPruneTries runs exactly what one iteration of (*Pruner).loop runs between awaitUntilPrunable and
+// the status update: pruneTries(targetChain, base, target).
+func VerifPruneTries(ctx context.Context, db *muxdb.MuxDB, repo *chain.Repository, targetChain *chain.Chain, base, target uint32) error {
+	p := &Pruner{db: db, repo: repo, ctx: ctx}
+	return p.pruneTries(targetChain, base, target)
+}
+
+// VerifCheckpointTries runs only the checkpoint half of a prune round.
+func VerifCheckpointTries(ctx context.Context, db *muxdb.MuxDB, repo *chain.Repository, targetChain *chain.Chain, base, target uint32) error {
+	p := &Pruner{db: db, repo: repo, ctx: ctx}
+	return p.checkpointTries(targetChain, base, target)
+}
+
+// VerifLoadBase / VerifSaveBase read and write the persisted prune base exactly as the loop does.
+func VerifLoadBase(db *muxdb.MuxDB) (uint32, error) {
+	var s status
+	if err := s.Load(db.NewStore(propsStoreName)); err != nil {
+		return 0, err
+	}
+	return s.Base, nil
+}
+
+// VerifSaveBase persists the prune base.
+func VerifSaveBase(db *muxdb.MuxDB, base uint32) error {
+	s := status{Base: base}
+	return s.Save(db.NewStore(propsStoreName))
+}
